@@ -255,7 +255,8 @@ CHECKS = {
         note="Trusted: TLC, the scripted objective that turns a tree into suggest calls. Mid-trial failures (between two "
              "suggests) and resume-with-another-seed are separate families with known findings K3, K3b, K8. NaN and None occur "
              "among categorical choices (grids and trees), a quarter of the brute-force runs start next to a RUNNING trial "
-             "without parameters left by a dead worker.",
+             "without parameters left by a dead worker, 30% of the grid runs start in a study that already holds the trials of "
+             "another grid (same value lists, other names).",
         technique="TLA+ property- and algorithm-level specs model-checked with TLC (safety + liveness); real sampler runs "
                   "validated by TLC (trace validation)",
         ref="DESIGN.md section 4 C14, section 3.8",
